@@ -38,7 +38,7 @@ claim("C11", "M+K", "SMT bounded model checking of MIR (z3 + cvc5); Kani/CBMC ha
       "Kernel level: anti-reorg confirmation thresholds of both on-chain event queues (no irreversible conclusion before ANTI_REORG_DELAY confirmations nor before a CSV output matures), heights 1..2^31, all CSV delays; the per-entry reorg decisions of ChannelMonitor - blocks_disconnected retracts exactly the events above the fork point, a funding spend counts as final only with ANTI_REORG_DELAY confirmations - for all u32 heights and queues of any length, replayed on a live monitor; BlockLocator ring operations (Kani) where registered. Equivalence of block-delivery styles and multi-step reorg histories are outside the claim.",
       "trusted: rustc MIR dump, engine_m, z3/cvc5, Kani/CBMC")
 claim("C17", "M", "SMT bounded model checking of MIR (z3 + cvc5 portfolio)",
-      "Kernel level (narrow): the channel_update acceptance closures of NetworkGraph::update_channel_internal - strictly newer timestamp per direction, htlc_maximum <= known capacity - for all timestamps/flags/amounts, node_announcement ordering (applied iff the node is known and the timestamp is strictly newer, signed and unsigned path alike) and one step of the stale-channel pruning loop (each direction judged by its own timestamp; removal iff a direction is missing and the announcement is old); counterexamples are replayed through the public NetworkGraph API. Signatures, channel announcements and order-independence over message sets are outside the claim.",
+      "Kernel level (narrow): the channel_update acceptance closures of NetworkGraph::update_channel_internal - strictly newer timestamp per direction, htlc_maximum <= known capacity - for all timestamps/flags/amounts, node_announcement ordering (applied iff the node is known and the timestamp is strictly newer, signed and unsigned path alike) and one step of the stale-channel pruning loop (each direction judged by its own timestamp; removal iff a direction is missing and the announcement is old); counterexamples are replayed through the public NetworkGraph API. verify_channel_announcement checks each of the four signatures against its own key (hashing / secp256k1 stubbed, outcome free per signature-key pair). The cryptography itself and order-independence over message sets are outside the claim.",
       "trusted: rustc MIR dump, engine_m, z3")
 claim("C06", "M", "SMT bounded model checking of MIR (z3 + cvc5 portfolio)",
       "Kernel level: one justice claim is queued for every HTLC output of a revoked counterparty commitment, for the right outpoint and with the right urgency height (one iteration of the claim-building loop of check_spend_counterparty_transaction from an arbitrary loop-head state, replayed on live nodes); the fee and scheduling kernels that justice claims run on - first-attempt fee, RBF bumping (monotone, BIP-125 rules 3/4), package output value, merge, re-bump timer tied to the counterparty CSV height -, completeness of the retained revocation secrets (protocol-order prefix of the top m indices, SHA-256 uninterpreted), the amount claimed from a revoked HTLC output (amount_msat/1000 exactly) and the classification of revoked outputs as malleable packages. Detection of revoked commitments, secret derivation, package construction and witness validity are outside the claim.",
